@@ -232,6 +232,9 @@ func c02worker(c *hx.Ctx) int {
 	rep := hx.NewReport()
 	c02prelude()
 	corpus := specEditCorpus(c.Quick(), false, !c.Quick())
+	// expensive documents (the ones that need a reduction) come in regular patterns of the edit order:
+	// a fixed pseudo-random order spreads them evenly over the workers
+	sort.SliceStable(corpus, func(a, b int) bool { return hx.Hash(corpus[a].Doc) < hx.Hash(corpus[b].Doc) })
 	reported := map[string]bool{}
 	for i, e := range corpus {
 		if i%c.Workers != c.Worker {
@@ -281,6 +284,9 @@ func c02worker(c *hx.Ctx) int {
 				t2 := time.Now()
 				sig, what := c02reduce(e, c.Expired)
 				rep.Inc("t_reduce_ms", time.Since(t2).Milliseconds())
+				if time.Since(t2) > 8*time.Second {
+					rep.Notes = append(rep.Notes, fmt.Sprintf("slow reduction (%.0fs): %s: %s", time.Since(t2).Seconds(), e.Seed, e.Desc))
+				}
 				rep.Inc("accepted_although_invalid", 1)
 				if sig == "" {
 					// the budget ran out in the middle of the reduction: without its minimal cause the
@@ -380,6 +386,33 @@ func c02reduce(e specEdit, stop func() bool) (sig, what string) {
 					continue
 				}
 				return hit[0] + " ⊢ " + hit[1], fmt.Sprintf("seed %s, edit %q is accepted although it violates the Swagger 2.0 schema; minimal cause: schema %s accepts %s", e.Seed, e.Desc, hit[0], hit[1])
+			}
+			if f.Kw == "additionalProperties" {
+				// the offending member is known: start from the object that holds only that member with
+				// the simplest value (what the shrinker would arrive at after many expensive steps on a
+				// large sub-tree)
+				if i := strings.LastIndex(f.Loc, "\x00"); i >= 0 {
+					small := map[string]any{f.Loc[i+1:]: 0.0}
+					if full, ok := sub.(map[string]any); ok {
+						// ... plus the members the schema requires, as they are
+						if req, ok := flat["required"].([]any); ok {
+							for _, r := range req {
+								if name, ok := r.(string); ok {
+									if v, has := full[name]; has {
+										small[name] = v
+									}
+								}
+							}
+						}
+					}
+					if pred(flat, small) {
+						sg, wh := finish(flat, small)
+						if j := strings.Index(sg, " ⊢ "); j > 0 {
+							c02reduced[key] = [2]string{sg[:j], sg[j+len(" ⊢ "):]}
+						}
+						return sg, wh
+					}
+				}
 			}
 			if pred(flat, sub) {
 				sg, wh := finish(flat, sub)
